@@ -35,6 +35,8 @@ def bound_pool() -> List[BoundSpec]:
     pool.append(("C", ("int", "str")))
     pool.append(("C", ("str", "object")))
     pool.append(("C", ("bool", "int", "str")))
+    # a constraint list whose *first* member an upper bound can rule out (the remaining ones shift position)
+    pool.append(("C", ("object", "int", "str")))
     return pool
 
 
